@@ -854,8 +854,8 @@ class GroundTruth(WireTracker):
             if f.h.code == 257 and not f.h.is_request and g["kind"] == "dialled" and s is not None and s.cea_variant == "ok":
                 g["ce_ok"] = True
                 g["identified"] = True
-            if f.h.code == 282 and f.h.is_request:
-                g["dpr_in"] = True
+            if f.h.code == 282 and f.h.is_request and g["ce_ok"]:
+                g["dpr_in"] = True      # a DPR before the capabilities exchange has succeeded is ignored by the gate (C06)
         elif k == "out":
             t, sid, f = ev[1], ev[2], ev[3]
             g = self.conn(sid)
